@@ -3,6 +3,7 @@ CONSTANTS
   Entries = {}
   SrvEntries = {}
   PqlEntries = {}
+  EnvEntries = {}
   MsgEntries = {}
   Formats = {}
   Shapes <- TailsNone
